@@ -363,8 +363,26 @@ fn long_run(out: &mut Partial) {
         }
         // three seconds after every maintenance boundary the refresh lookup (answered within
         // milliseconds here) is over: no lookup pending, nothing unexpired in flight
-        if !snap.core.iterative_queries.is_empty() || snap.socket.inflight_unexpired != 0 {
-            problems.push(("never-quiet".into(), format!("minute {}: {} lookups pending and {} unexpired requests in flight three seconds after the maintenance boundary, with every peer answering within 10 ms", k * 5, snap.core.iterative_queries.len(), snap.socket.inflight_unexpired)));
+        // (where exactly the node's own maintenance rounds fall relative to this sample drifts
+        // with its poll interval: a sample that lands in the middle of a round is retried
+        // every second for ten more seconds; only a node that is busy throughout is reported)
+        let mut quiet = snap.core.iterative_queries.is_empty() && snap.socket.inflight_unexpired == 0;
+        let mut last = (snap.core.iterative_queries.len(), snap.socket.inflight_unexpired);
+        let mut extra = 0;
+        while !quiet && extra < 10 {
+            extra += 1;
+            w.run_until(hz + extra * SEC, |w, ev| {
+                if let Event::EndpointRecv { ep, dgram } = ev {
+                    net.handle(w, *ep, dgram);
+                }
+                false
+            });
+            let s2 = w.snapshot(a);
+            last = (s2.core.iterative_queries.len(), s2.socket.inflight_unexpired);
+            quiet = last.0 == 0 && last.1 == 0;
+        }
+        if !quiet {
+            problems.push(("never-quiet".into(), format!("minute {}: {} lookups pending and {} unexpired requests in flight at every one of eleven samples a second apart after the maintenance boundary, with every peer answering within 10 ms", k * 5, last.0, last.1)));
         }
         if !problems.is_empty() {
             break;
